@@ -114,7 +114,7 @@ func checkC07(c *Ctx, e *Env) {
 		}
 		ask := "int0(" + order.Name + ".AskAmount)"
 		bid := "intfield(" + idx + ".BidPrice.Amount)"
-		if !factBefore(st, "-Gt0("+linAtom(ask).Sub(linAtom(bid)).String()+")", first) {
+		if !factBefore(st, "-Gt0("+regLin(linAtom(ask).Sub(linAtom(bid)))+")", first) {
 			fail("guard:bid>=ask", "no check !(ask > bid) before the fill", o)
 		}
 		// fee forms on this path
@@ -150,13 +150,13 @@ func checkC07(c *Ctx, e *Env) {
 		mf := "intfield(*" + idx + ".MaxFeeAmount.Amount)"
 		okMF := false
 		for _, cand := range []Lin{linAtom(mf).Sub(truncOf(bf)), truncOf(bf).Neg()} {
-			if factBefore(st, "-Lt0("+cand.String()+")", first) {
+			if factBefore(st, "-Lt0("+regLin(cand)+")", first) {
 				okMF = true
 			}
 		}
 		if nilv, known := st.known("Nil(" + idx + ".MaxFeeAmount)"); known && nilv {
 			// absent ⇒ zero coin: the comparison must be against 0
-			if !factBefore(st, "-Lt0("+truncOf(bf).Neg().String()+")", first) {
+			if !factBefore(st, "-Lt0("+regLin(truncOf(bf).Neg())+")", first) {
 				okMF = false
 			}
 		}
@@ -166,7 +166,7 @@ func checkC07(c *Ctx, e *Env) {
 		bal := "bankbal(" + buyer + "," + st.find(denom) + ")"
 		okF := false
 		for _, d := range []string{st.find(denom), st.find(idx + ".BidPrice.Denom"), denom, idx + ".BidPrice.Denom"} {
-			if factBefore(st, "-Lt0("+linAtom("bankbal("+buyer+","+d+")").Sub(truncOf(S.Add(bf))).String()+")", first) {
+			if factBefore(st, "-Lt0("+regLin(linAtom("bankbal("+buyer+","+d+")").Sub(truncOf(S.Add(bf))))+")", first) {
 				okF = true
 			}
 		}
